@@ -1,7 +1,7 @@
 //! C18: iterators as faithful sequences — implementation side.
 //!
 //! A case is one input from which the library hands out an iterator, plus a flat list of
-//! calls `hist=<slot><op>[arg],...`:  n next, b next_back, t<k> nth(k), l len, h size_hint,
+//! calls `hist=<slot><op>[arg],...`:  n next, b next_back, t<k> nth(k), q<k> nth_back(k), l len, h size_hint,
 //! c clone().count(), k clone (appends the copy to the pool), d drain (next until None),
 //! and `r` = drop the pool and start again from a fresh iterator (separates histories).
 //! The observation is the item list obtained by a plain `for` loop and every call's output.
@@ -21,9 +21,10 @@ fn opt(o: Option<String>) -> String {
 }
 fn nb<I: DoubleEndedIterator>(it: &mut I) -> Option<I::Item> { it.next_back() }
 fn ln<I: ExactSizeIterator>(it: &I) -> usize { it.len() }
+fn nthb<I: DoubleEndedIterator>(it: &mut I, k: usize) -> Option<I::Item> { it.nth_back(k) }
 
 fn run_hist<I: Iterator + Clone>(fresh: &dyn Fn() -> I, show: &dyn Fn(I::Item) -> String, hist: &str,
-	nbf: Option<fn(&mut I) -> Option<I::Item>>, lnf: Option<fn(&I) -> usize>) -> String {
+	nbf: Option<fn(&mut I) -> Option<I::Item>>, lnf: Option<fn(&I) -> usize>, qf: Option<fn(&mut I, usize) -> Option<I::Item>>) -> String {
 	// the item list by a plain forward loop
 	let mut items: Vec<String> = Vec::new();
 	for x in fresh() {
@@ -51,6 +52,7 @@ fn run_hist<I: Iterator + Clone>(fresh: &dyn Fn() -> I, show: &dyn Fn(I::Item) -
 			'n' => opt(pool[slot].next().map(|x| show(x))),
 			'b' => match nbf { Some(f) => opt(f(&mut pool[slot]).map(|x| show(x))), None => "u".to_string() },
 			't' => { let k: u64 = arg.parse().expect("harness: nth arg"); opt(pool[slot].nth(k as usize).map(|x| show(x))) },
+			'q' => { let k: u64 = arg.parse().expect("harness: nth_back arg"); match qf { Some(f) => opt(f(&mut pool[slot], k as usize).map(|x| show(x))), None => "u".to_string() } },
 			'l' => match lnf { Some(f) => format!("n{}", f(&pool[slot])), None => "u".to_string() },
 			'h' => { let (lo, hi) = pool[slot].size_hint(); format!("h{}/{}", lo, hi.map(|h| h.to_string()).unwrap_or("-".to_string())) },
 			'c' => format!("n{}", pool[slot].clone().count()),
@@ -75,10 +77,11 @@ fn run_hist<I: Iterator + Clone>(fresh: &dyn Fn() -> I, show: &dyn Fn(I::Item) -
 fn run_full<I: DoubleEndedIterator + ExactSizeIterator + Clone>(fresh: &dyn Fn() -> I, show: &dyn Fn(I::Item) -> String, hist: &str) -> String {
 	let f: fn(&mut I) -> Option<I::Item> = nb::<I>;
 	let g: fn(&I) -> usize = ln::<I>;
-	run_hist(fresh, show, hist, Some(f), Some(g))
+	let q: fn(&mut I, usize) -> Option<I::Item> = nthb::<I>;
+	run_hist(fresh, show, hist, Some(f), Some(g), Some(q))
 }
 fn run_fwd<I: Iterator + Clone>(fresh: &dyn Fn() -> I, show: &dyn Fn(I::Item) -> String, hist: &str) -> String {
-	run_hist(fresh, show, hist, None, None)
+	run_hist(fresh, show, hist, None, None, None)
 }
 
 // ------------------------------------------------------------------ inputs
@@ -301,6 +304,9 @@ fn alphabet(full: bool, n: usize) -> Vec<String> {
 	if full { a.push("0b".into()); }
 	for k in [0u64, 1, n as u64, K63, u64::MAX] { a.push(format!("0t{}", k)); }
 	if !full { a.push("0t2".into()); a.push(format!("0t{}", n + 1)); }
+	// nth_back on the double-ended families: the last item, the one before it, the first, one past the first, far beyond
+	// (k = 2 and len + 1 come from the random part)
+	if full { for k in [0u64, 1, (n as u64).saturating_sub(1), n as u64, K63] { a.push(format!("0q{}", k)); } }
 	if full { a.push("0l".into()); }
 	a.push("0h".into());
 	a.push("0c".into());
@@ -308,6 +314,7 @@ fn alphabet(full: bool, n: usize) -> Vec<String> {
 	a.push("1n".into());
 	if full { a.push("1b".into()); }
 	a.push("1t1".into());
+	if full { a.push("1q1".into()); }
 	a
 }
 
@@ -373,7 +380,7 @@ fn gen(rng: &mut Rng, i: u64) -> String {
 			0 => 0, 1 => 1, 2 => 2, 3 => n as u64, 4 => n as u64 + 1, 5 => (n as u64).saturating_sub(1), 6 => K63, 7 => u64::MAX,
 			8 => 1 << 32, 9 => K63 - 1, 10 => u64::MAX / 2 + 2, _ => rng.below(n as u64 + 3),
 		};
-		let op = match rng.below(if full { 16 } else { 12 }) {
+		let op = match rng.below(if full { 20 } else { 12 }) {
 			0 | 1 | 2 => "n".to_string(),
 			3 | 4 | 5 => format!("t{}", k),
 			6 => "h".to_string(),
@@ -383,8 +390,12 @@ fn gen(rng: &mut Rng, i: u64) -> String {
 			10 => format!("t{}", rng.below(3)),
 			11 => if rng.chance(1, 4) { "d".to_string() } else { "n".to_string() },
 			12 | 13 | 14 => "b".to_string(),
-			_ => "l".to_string(),
+			15 => "l".to_string(),
+			_ => format!("q{}", k),
 		};
+		// forward-only families: next_back / nth_back / len are not callable (the harness cannot even write the call); now and then
+		// the history asks all the same, and both sides must answer `u`
+		let op = if !full && rng.chance(1, 40) { match rng.below(3) { 0 => "b".to_string(), 1 => "l".to_string(), _ => format!("q{}", k) } } else { op };
 		hist.push(format!("{}{}", slot, op));
 		if rng.chance(1, 25) { hist.push("r".into()); slots = 1; }
 	}
